@@ -6,6 +6,7 @@ CONSTANTS
   QIndirect = FALSE
   QEventIdx = FALSE
   MaxBufs = 3
+  Adversary = FALSE
   WithNotify = FALSE
   Bug = "none"
 INVARIANTS
